@@ -48,17 +48,17 @@ type dbSuite struct {
 	bigLoad  int // kvbig: number of leading bulk-load transactions
 	openLine string
 	// crash-image capture (armed by a `capture` line for the next commit / merge)
-	capture  bool
-	armed    bool
-	images   []crashImage
-	imgLeft  int
-	imgNext  int
-	armedGen bool
-	faultGen bool
+	capture   bool
+	armed     bool
+	images    []crashImage
+	imgLeft   int
+	imgNext   int
+	armedGen  bool
+	faultGen  bool
 	mergeNext bool
 	// power-loss shadow: content that has reached stable storage (sync'ed), pending writes per file
-	durable map[string][]byte
-	pending map[string][]pendWrite
+	durable  map[string][]byte
+	pending  map[string][]pendWrite
 	interned map[string][]byte
 }
 
@@ -1203,7 +1203,6 @@ func (s *dbSuite) genVals(r *rand.Rand) [][]byte {
 }
 
 var _ = regexp.MustCompile
-
 
 // ---------------------------------------------------------------- kvbig: large buckets
 
